@@ -217,9 +217,10 @@ func AcceptsFrame(b []byte, code byte, usize, csize int, offset string) (ok bool
 	if err != nil {
 		return false, err.Error(), nil
 	}
+	// The title text is not protected by any checksum and a receiver has no reason to refuse a
+	// transfer because of it: only its structure (NUL termination, header length) is part of the
+	// verdict. (Title conformance of what the library *sends* is judged by the peer in C05.)
 	switch {
-	case !ValidTitle(f.Title):
-		return false, "title not 1..80 ASCII bytes", nil
 	case f.Offset != offset:
 		return false, "offset differs from the requested one", nil
 	case !f.ChecksumOK:
